@@ -383,3 +383,217 @@ async fn crash_enum_thorough_2() {
 async fn crash_enum_thorough_3() {
 	crash_enum_impl(3, "crash_enum_thorough_3", 3, 4).await;
 }
+
+// ------------------------------------------------------------------------------------------------
+// C12 bounded check (real Wal manager, Writer, Reader and repair on real files): what is appended is read back
+// byte-identical and in order (also across a close/reopen of the segment in the middle); a segment cut off at
+// an offset, or with one byte damaged, reads as a PREFIX of the appended records that contains every record
+// lying wholly before the damage and then ends with end-of-log or a corruption report; repair keeps exactly
+// such a prefix, and a record appended after the repair is read back after it.
+// Bound (stated): record-length sequences of <= `maxrec` records from {1, 100, B-H-1, B-H, B-H+1, B-2H-1, 2B+5}
+// (B = 32768 block, H = 7 header), every session split; truncation / single-byte damage (xor 0x01 and 0xff) at
+// every offset within 9 bytes of a record end or block boundary and at a stride of 4099 bytes.
+fn read_all(path: &Path) -> (Vec<(Vec<u8>, u64)>, String) {
+	use crate::wal::reader::Reader;
+	let file = match std::fs::File::open(path) {
+		Ok(f) => f,
+		// a repair that keeps no record may remove the segment: an absent segment reads as an empty log
+		Err(e) if e.kind() == std::io::ErrorKind::NotFound => return (Vec::new(), "eof".to_string()),
+		Err(e) => return (Vec::new(), format!("error: {e}")),
+	};
+	let mut reader = Reader::new(file);
+	let mut out = Vec::new();
+	loop {
+		match reader.read() {
+			Ok((data, off)) => {
+				out.push((data.to_vec(), off));
+				if out.len() > 64 {
+					return (out, "more than 64 records".to_string());
+				}
+			}
+			Err(Error::Corruption(e)) => return (out, format!("corruption: {e}")),
+			Err(Error::IO(e)) if e.kind() == std::io::ErrorKind::UnexpectedEof => return (out, "eof".to_string()),
+			Err(e) => return (out, format!("error: {e}")),
+		}
+	}
+}
+
+fn log_enum_impl(maxrec: usize, stride: usize, name: &str) {
+	use crate::wal::manager::Wal;
+	use crate::wal::recovery::repair_corrupted_wal_segment;
+	let b = BLOCK_SIZE;
+	let h = HEADER_SIZE;
+	let lens: Vec<usize> = vec![1, 100, b - h - 1, b - h, b - h + 1, b - 2 * h - 1, 2 * b + 5];
+	let mut cases = 0u64;
+	let mut nontrivial = 0u64;
+	let mut failures: Vec<String> = Vec::new();
+	let mut samples: Vec<String> = Vec::new();
+	let mut checks = 0u64;
+	for n in 1..=maxrec {
+		for code in 0..lens.len().pow(n as u32) {
+			let mut seq = Vec::new();
+			let mut x = code;
+			for _ in 0..n {
+				seq.push(lens[x % lens.len()]);
+				x /= lens.len();
+			}
+			for split in 0..n {
+				// split = number of records written in the first session (0 = one session)
+				cases += 1;
+				let dir = tempdir::TempDir::new("verif_c12").unwrap();
+				let recs: Vec<Vec<u8>> = seq.iter().enumerate().map(|(i, &l)| (0..l).map(|j| ((i * 31 + j * 7 + l) % 251) as u8).collect()).collect();
+				let mut bad: Option<String> = None;
+				{
+					let mut wal = Wal::open(dir.path(), Options::default()).unwrap();
+					for (i, r) in recs.iter().enumerate() {
+						if split > 0 && i == split {
+							wal.close().unwrap();
+							drop(wal);
+							wal = Wal::open(dir.path(), Options::default()).unwrap();
+						}
+						if let Err(e) = wal.append(r) {
+							bad = Some(format!("append of record {i} failed: {e}"));
+							break;
+						}
+					}
+					let _ = wal.sync();
+					let _ = wal.close();
+				}
+				let ids = list_segment_ids(dir.path(), Some("wal")).unwrap_or_default();
+				let mut ends: Vec<u64> = Vec::new();
+				if bad.is_none() && ids.len() != 1 {
+					bad = Some(format!("the appends did not stay in one segment: segments {:?}", ids));
+				}
+				let seg_id = ids.first().copied().unwrap_or(0);
+				let seg = dir.path().join(segment_name(seg_id, "wal"));
+				if bad.is_none() {
+					let (got, end) = read_all(&seg);
+					if got.iter().map(|g| &g.0).collect::<Vec<_>>() != recs.iter().collect::<Vec<_>>() || end != "eof" {
+						bad = Some(format!("read back {} records of lengths {:?} ending with '{end}', appended were lengths {:?}", got.len(), got.iter().map(|g| g.0.len()).collect::<Vec<_>>(), seq));
+					}
+					ends = got.iter().map(|g| g.1).collect();
+				}
+				if bad.is_none() {
+					let bytes = std::fs::read(&seg).unwrap();
+					let flen = bytes.len();
+					if flen > b {
+						nontrivial += 1;
+					}
+					// offsets to probe
+					let mut offs: std::collections::BTreeSet<usize> = std::collections::BTreeSet::new();
+					let mut marks: Vec<usize> = ends.iter().map(|&e| e as usize).collect();
+					let mut blk = 0;
+					while blk <= flen {
+						marks.push(blk);
+						blk += b;
+					}
+					for m in marks {
+						for d in 0..=9usize {
+							if m + d < flen {
+								offs.insert(m + d);
+							}
+							if m >= d && m - d < flen {
+								offs.insert(m - d);
+							}
+						}
+					}
+					let mut o = 0;
+					while o < flen {
+						offs.insert(o);
+						o += stride;
+					}
+					let work = dir.path().join("work");
+					for &off in &offs {
+						for mode in 0..3u8 {
+							// 0 = truncate at off, 1 = xor 0x01, 2 = xor 0xff
+							checks += 1;
+							let _ = std::fs::remove_dir_all(&work);
+							std::fs::create_dir_all(&work).unwrap();
+							let wseg = work.join(segment_name(seg_id, "wal"));
+							let mut dmg = bytes.clone();
+							if mode == 0 {
+								dmg.truncate(off);
+							} else {
+								dmg[off] ^= if mode == 1 { 0x01 } else { 0xff };
+							}
+							std::fs::write(&wseg, &dmg).unwrap();
+							// records wholly before the damage
+							let must = ends.iter().filter(|&&e| (e as usize) <= off).count();
+							let (got, end) = read_all(&wseg);
+							let is_prefix = got.len() <= recs.len() && got.iter().zip(recs.iter()).all(|(g, r)| &g.0 == r);
+							let what = if mode == 0 { format!("truncated at {off}") } else { format!("byte {off} xor {}", if mode == 1 { "0x01" } else { "0xff" }) };
+							if !is_prefix {
+								bad = Some(format!("{what}: reading yields {} records that are not a prefix of the appended ones (lengths {:?})", got.len(), got.iter().map(|g| g.0.len()).collect::<Vec<_>>()));
+							} else if got.len() < must {
+								bad = Some(format!("{what}: only {} records read, {} records lie wholly before the damage (record ends {:?}); reader ended with '{end}'", got.len(), must, ends));
+							} else if !(end == "eof" || end.starts_with("corruption")) {
+								bad = Some(format!("{what}: reader ended with '{end}'"));
+							}
+							if bad.is_some() {
+								break;
+							}
+							// repair keeps exactly such a prefix, and an append after it is read back
+							if (off % 7 == 0 || mode == 0) && got.len() < recs.len() {
+								let rep = repair_corrupted_wal_segment(&work, seg_id as usize);
+								let (after, end2) = read_all(&wseg);
+								let ok_prefix = after.len() <= recs.len() && after.iter().zip(recs.iter()).all(|(g, r)| &g.0 == r);
+								if let Err(e) = rep {
+									bad = Some(format!("{what}: repair failed: {e}"));
+								} else if !ok_prefix || after.len() < must || end2 != "eof" {
+									bad = Some(format!("{what}: after repair the segment reads {} records (prefix: {ok_prefix}, {must} lie wholly before the damage), ending with '{end2}'", after.len()));
+								} else {
+									let extra = vec![0xabu8; 333];
+									let mut wal = Wal::open(&work, Options::default()).unwrap();
+									let r1 = wal.append(&extra);
+									let _ = wal.sync();
+									let _ = wal.close();
+									let mut all: Vec<Vec<u8>> = Vec::new();
+									let mut ends_ok = true;
+									for id in list_segment_ids(&work, Some("wal")).unwrap_or_default() {
+										let (g, e3) = read_all(&work.join(segment_name(id, "wal")));
+										ends_ok &= e3 == "eof";
+										all.extend(g.into_iter().map(|x| x.0));
+									}
+									let mut want: Vec<Vec<u8>> = after.iter().map(|x| x.0.clone()).collect();
+									want.push(extra);
+									if r1.is_err() || !ends_ok || all != want {
+										bad = Some(format!("{what}: after repair + one append the log reads {} records (expected the {} repaired ones + the new one), append result ok={}", all.len(), after.len(), r1.is_ok()));
+									}
+								}
+								if bad.is_some() {
+									break;
+								}
+							}
+						}
+						if bad.is_some() {
+							break;
+						}
+					}
+				}
+				if let Some(bm) = bad {
+					if failures.len() < 5 {
+						failures.push(format!("{{\"record_lengths\":{:?},\"first_session_records\":{split},\"mismatch\":{:?}}}", seq, bm));
+					}
+				} else if samples.len() < 3 && n == maxrec && split > 0 {
+					samples.push(format!("\"lengths {:?}, reopened after {split} record(s)\"", seq));
+				}
+			}
+		}
+	}
+	println!(
+		"REPLAY-RESULT {{\"driver\":\"wal::{name}\",\"cases\":{cases},\"damage_checks\":{checks},\"distinct_nontrivial\":{nontrivial},\"samples\":[{}],\"failures\":[{}]}}",
+		samples.join(","),
+		failures.join(",")
+	);
+	assert!(failures.is_empty());
+}
+
+#[test]
+fn log_enum_quick() {
+	log_enum_impl(2, 4099, "log_enum_quick");
+}
+
+#[test]
+fn log_enum_thorough() {
+	log_enum_impl(3, 1021, "log_enum_thorough");
+}
